@@ -225,6 +225,10 @@ class C13(Check):
             if kind == 'compile' and rng.random() < (0.9 if stratum == 'S-jax' else 0.3):
                 late_probes.append({'wf': wid, 'op': 'probe', 'handle': h})
             consumed = kw['in_place']
+            if any(o.get('via') == 'integrate' for o in ops[-2:]):
+                # integrate() ran on whatever the path cache held (the workflow's object, or a fresh load after another
+                # workflow's cache wipe): the workflow's own object is not used any further, the next observation rebuilds
+                consumed = True
             # an instance compiled in place by get_run_func and cleared is used again by many scripts (e.g. the same model
             # first vectorized, then for the fortran backend); after a run() it carries the end state by design
             reusable = consumed and kind == 'compile' and kw['clear'] and 'input' not in ops[-1 if ops[-1]['op'] != 'probe' else -2]
